@@ -289,6 +289,8 @@ type diffCtx struct {
 	toSend, prepare []Range
 	myRes, otherRes []RangeResult
 	compareFunc     func(dctx *diffCtx, my, other []Element)
+	// err is set when the remote's answers cannot come from a correct peer
+	err error
 }
 
 var errMismatched = errors.New("query and results mismatched")
@@ -319,6 +321,10 @@ func (d *diff) Diff(ctx context.Context, dl Remote) (newIds, changedIds, removed
 		}
 		for i, r := range dctx.toSend {
 			d.compareResults(dctx, r, dctx.myRes[i], dctx.otherRes[i])
+		}
+		if dctx.err != nil {
+			err = dctx.err
+			return
 		}
 		dctx.toSend, dctx.prepare = dctx.prepare, dctx.toSend
 		dctx.prepare = dctx.prepare[:0]
@@ -352,6 +358,10 @@ func (d *diff) CompareDiff(ctx context.Context, dl Remote) (newIds, ourChangedId
 		for i, r := range dctx.toSend {
 			d.compareResults(dctx, r, dctx.myRes[i], dctx.otherRes[i])
 		}
+		if dctx.err != nil {
+			err = dctx.err
+			return
+		}
 		dctx.toSend, dctx.prepare = dctx.prepare, dctx.toSend
 		dctx.prepare = dctx.prepare[:0]
 	}
@@ -377,6 +387,12 @@ func (d *diff) compareResults(dctx *diffCtx, r Range, myRes, otherRes RangeResul
 		return
 	}
 	if otherRes.Count <= d.compareThreshold && len(otherRes.Elements) == 0 || len(myRes.Elements) == myRes.Count {
+		if r.Elements {
+			// the elements of this range were already asked for: a peer answers such a request with as many
+			// elements as it counts, and one that does not would be asked again for ever
+			dctx.err = errMismatched
+			return
+		}
 		r.Elements = true
 		dctx.prepare = append(dctx.prepare, r)
 		return
